@@ -401,10 +401,12 @@ HARNESSES = [
             params={"quick": [{"nph": 1, "ncls": 2, "nel": 2}, {"nph": 2, "ncls": 2, "nel": 2}], "thorough": [{"nph": 3, "ncls": 3, "nel": 2}]}),
     Harness("C03.update_psd_faults", update_psd_faults, functions=_F + [PrecipitateModel._updateParticleSizeDistribution, PBM.adjustSizeClassesEuler, PrecipitateModel._getdXdt],
             assumptions=_A + ["driving force >= 0 and precipitates present (the re-binning branch)"], stubs=["as C03.faults_multi"],
-            opts={"ob_timeout": 30.0}, budget={"quick": 150.0, "thorough": 1200.0},
+            opts={"ob_timeout": 30.0}, budget={"quick": 150.0, "thorough": 600.0},
             params={"quick": [{"nph": 1, "ncls": 2, "nel": 2, "mode": "append"}, {"nph": 1, "ncls": 2, "nel": 2, "mode": "remesh"}, {"nph": 1, "ncls": 2, "nel": 2, "mode": "append", "recording": True}],
-                    "thorough": [{"nph": 1, "ncls": 2, "nel": 2, "_shards": 8}, {"nph": 2, "ncls": 2, "nel": 2, "mode": "append", "_shards": 8}, {"nph": 1, "ncls": 2, "nel": 2, "remesh": True, "_shards": 8},
+                    "thorough": [{"nph": 2, "ncls": 2, "nel": 2, "mode": "append", "_shards": 8}, {"nph": 1, "ncls": 3, "nel": 2, "mode": "append"},
                                  {"nph": 1, "ncls": 3, "nel": 2, "mode": "remesh"}, {"nph": 2, "ncls": 2, "nel": 2, "mode": "append", "recording": True, "_shards": 4}]}),
+            # (a fully symbolic grid -- mode "any" -- makes the interpolation of the tables onto a re-meshed grid branch on non-linear comparisons the solvers do not
+            #  decide within minutes; the re-mesh case is therefore explored on concrete grids only, mode "remesh")
     Harness("C03.update_psd_binary_faults", update_psd_binary_faults, functions=_F + [PrecipitateModel._updateParticleSizeDistribution, PBM.adjustSizeClassesEuler],
             assumptions=_A + ["the table in force is valid (positive compositions); the last class is filled so that classes are appended"],
             stubs=["therm.getInterfacialComposition: fresh symbolic values, -1 for the appended classes whose symbolic fault bit is set"],
